@@ -150,3 +150,12 @@ CLAIMED["C10"] = (
  "Does not decide FIFO order, Committed() over histories, contiguity after promotion or the representation invariant: these need an inductive relational argument outside this technique.",
  COMMON_NOTE,
  "DESIGN.md section 5 C10")
+
+CLAIMED["C11"] = (
+ "wrap-idiom recognition on every cursor store (with must-pass-through to the wrap test), min-clamp (phi) recognition, value identity between the clamped amount and the used/cursor/result updates, constructor parameter table",
+ "Static necessary-condition analysis. Decides that head/tail are only ever stored as 0, x % size or advance-then-conditional-subtract under cursor >= size (a bit mask is accepted only with a power-of-two validation in the "
+ "constructor), that Claim/Commit/Consume use min(n, FreeSpace()/UsedSpace()) and nothing else, that Claim hands out slice[tail:][:amount], that used, the cursor and the result move by that one amount, the "
+ "FreeSpace/UsedSpace/Size/Reset formulas, and the construction parameters (page rounding, positive size, 2*size reservation, file truncated to size and mapped twice MAP_FIXED|MAP_SHARED at slice[0] and slice[size], "
+ "length size, offset 0). Release of mapping / temp file / descriptor on every path is decided under C13. Does not decide that the two mappings alias (MMU) nor negative amounts.",
+ COMMON_NOTE,
+ "DESIGN.md section 5 C11")
